@@ -385,8 +385,7 @@ def proto_data_received(u: U):
             u.check("C06.data.custom_parser.eof_uninstalls", And(fs["_payload_parser"] is None, fs["_payload"] is None),
                     "a payload parser that reports end-of-stream is uninstalled")
             u.check("C06.data.custom_parser.unconsumed_tail_is_kept_not_parsed",
-                    isinstance(fs["_tail"], (SBytes, bytes)) and SBytes.of(fs["_tail"]).prov_eq(SBytes.of(tail0) + SBytes.of(pp_tail))
-                    ,
+                    isinstance(fs["_tail"], (SBytes, bytes)) and SBytes.of(fs["_tail"]).prov_eq(SBytes.of(tail0) + SBytes.of(pp_tail)),
                     "bytes behind the end of the payload parser's stream are appended to _tail (connection not clean)")
         else:
             u.check("C06.data.custom_parser.stays", fs["_payload_parser"] is not None, "the payload parser stays installed")
